@@ -10,7 +10,7 @@ from mcv.gen import containers as C
 from mcv.gen import cue as Q
 from mcv.checks.c10 import parse_table
 
-ENCODINGS = ["raw", "raw2352", "mdx", "cue_raw", "cue_2352"]
+ENCODINGS = ["raw", "raw2352", "mdx", "cue_raw", "cue_2352", "cue_subdir"]
 
 
 def write_encodings(d, payload):
@@ -24,8 +24,16 @@ def write_encodings(d, payload):
         f.write(C.data_cue("a.bin", "MODE1/2048"))
     with open(os.path.join(d, "b.cue"), "w") as f:
         f.write(C.data_cue("b.bin", "MODE1/2352"))
+    # a cue sheet that names its bin with a directory component; a different image of the same name lies beside the cue
+    os.makedirs(os.path.join(d, "sub", "images"))
+    with open(os.path.join(d, "sub", "images", "disc.bin"), "wb") as f:
+        f.write(payload)
+    with open(os.path.join(d, "sub", "disc.bin"), "wb") as f:
+        f.write(b"\x00" * 4096)
+    with open(os.path.join(d, "sub", "c.cue"), "w") as f:
+        f.write(C.data_cue("images/disc.bin", "MODE1/2048"))
     return {"raw": os.path.join(d, "raw.img"), "raw2352": os.path.join(d, "raw2352.bin"), "mdx": os.path.join(d, "x.mdx"),
-            "cue_raw": os.path.join(d, "a.cue"), "cue_2352": os.path.join(d, "b.cue")}
+            "cue_raw": os.path.join(d, "a.cue"), "cue_2352": os.path.join(d, "b.cue"), "cue_subdir": os.path.join(d, "sub", "c.cue")}
 
 
 def observe(path):
@@ -116,8 +124,8 @@ class Check(CheckBase):
     rule = ("case library = AKAI length/header/structure sweeps of C01 (quick: every 4th + all boundary lengths) and Roland "
             "chains/window/header sweeps of C02 (quick: every 12th; odd cluster counts make cluster reads straddle 2048-byte "
             "user-data boundaries) x trailing bytes {0,1,2047,2048} (zero and non-zero), one small image with every trailing sector count 0..127 "
-            "(thorough 0..511), truncated payloads, x the five encodings {raw, MODE1/2352, "
-            "MDX, cue->raw, cue->2352} as real files: same image class, character-identical ls text at every node reachable "
+            "(thorough 0..511), truncated payloads, x the encodings {raw, MODE1/2352, "
+            "MDX, cue->raw, cue->2352, cue in another directory naming its bin with a path} as real files: same image class, character-identical ls text at every node reachable "
             "through the printed names, identical exported trees (paths + bytes); cue dispatch: all combinations of "
             "AUDIO/MODE1/2352/MODE2/2352 modes over <=3 tracks. non-trivial = image with >=1 exported file")
     assumptions = ["MODE1/2352 and MDX writers follow the layouts in DESIGN appendix A"]
